@@ -79,6 +79,157 @@ Proof.
   rewrite R. destruct cp; reflexivity.
 Qed.
 
+(* every way two layouts can differ: droplet class family (plain / with interface width / with amplitudes),
+   space dimension, number of stored extra scalars (i.e. number of modes) *)
+Theorem dtype_differs a b :
+  dtype_eqb (dtype_of a) (dtype_of b) = false <->
+  (layout (cls a) <> layout (cls b) \/ dim a <> dim b \/ length (extra a) <> length (extra b)).
+Proof.
+  unfold dtype_of, dtype_eqb, dim. split.
+  - intros H. apply andb_false_iff in H as [H|H]; [apply andb_false_iff in H as [H|H]|];
+      apply Nat.eqb_neq in H; auto.
+  - intros [H|[H|H]]; apply Nat.eqb_neq in H; rewrite H.
+    + reflexivity.
+    + rewrite andb_false_r. reflexivity.
+    + apply andb_false_r.
+Qed.
+
+Lemma append_loc_accept h c l cp e d v :
+  nth_error (ems h) c = Some e -> e_dtype e = Some d -> val_of h l = Some v ->
+  dtype_eqb d (dtype_of v) = true ->
+  snd (append_loc h c l cp true) = Ok /\
+  exists e', nth_error (ems (fst (append_loc h c l cp true))) c = Some e' /\ e_dtype e' = Some d.
+Proof.
+  intros Ee Ed Hv B. unfold append_loc. rewrite Ee, Hv. unfold em_add, rejects, new_dtype. rewrite Ed, B. simpl.
+  pose proof (nth_error_Some_lt _ _ _ Ee) as Hc.
+  destruct cp; simpl; (split; [reflexivity|]); eexists; (split; [apply nth_error_upd_eq; exact Hc|reflexivity]).
+Qed.
+
+Lemma append_loc_reject h c l cp e d v :
+  nth_error (ems h) c = Some e -> e_dtype e = Some d -> val_of h l = Some v ->
+  dtype_eqb d (dtype_of v) = false ->
+  append_loc h c l cp true = (h, Err EValue).
+Proof.
+  intros Ee Ed Hv B. unfold append_loc. rewrite Ee, Hv. unfold em_add, rejects. rewrite Ed, B. reflexivity.
+Qed.
+
+(* extend with force_consistency meets a droplet of another layout somewhere in the list: ValueError *)
+Lemma extend_rejects_mismatch h c ls cp d :
+  wf h -> locs_ok h ls ->
+  (exists e, nth_error (ems h) c = Some e /\ e_dtype e = Some d) ->
+  Exists (fun l => exists v, val_of h l = Some v /\ dtype_eqb d (dtype_of v) = false) ls ->
+  snd (extend_locs h c ls cp true) = Err EValue.
+Proof.
+  revert h; induction ls as [|l ls IH]; intros h W H (e & Ee & Ed) X; [inversion X|].
+  inversion H as [|? ? Hl Hls]; subst. simpl.
+  destruct (val_of_ok h l W Hl) as [v Hv].
+  destruct (dtype_eqb d (dtype_of v)) eqn:B.
+  - assert (Xt : Exists (fun l0 => exists v0, val_of h l0 = Some v0 /\ dtype_eqb d (dtype_of v0) = false) ls).
+    { inversion X as [? ? (v' & Hv' & B')|]; subst; auto. rewrite Hv in Hv'. inversion Hv'; subst. congruence. }
+    destruct (append_loc_accept h c l cp e d v Ee Ed Hv B) as (Ok1 & E1).
+    destruct (wf_append_loc h c l cp true W Hl) as (W1 & Hle & _).
+    pose proof (fun l' => append_loc_val h c l cp true l' W) as V.
+    destruct (append_loc h c l cp true) as [h1 oc]; simpl in *. subst oc.
+    apply IH; auto.
+    + eapply Forall_lt_mono with (f := fun x => x); [|exact Hls]. exact Hle.
+    + apply Exists_exists in Xt as (l0 & Hin & v0 & Hv0 & B0). apply Exists_exists. exists l0. split; auto.
+      exists v0. split; auto. rewrite V; auto. unfold locs_ok in Hls. rewrite Forall_forall in Hls. auto.
+  - rewrite (append_loc_reject h c l cp e d v Ee Ed Hv B). reflexivity.
+Qed.
+
+(* the constructor is all or nothing: when it raises, nothing has changed *)
+Theorem ctor_all_or_nothing h is dt cp f :
+  snd (exec h (OEmCtor is dt cp f)) <> Ok -> fst (exec h (OEmCtor is dt cp f)) = h.
+Proof.
+  simpl. unfold exec_emctor. destruct (mapM (nth_error (hnd h)) is) as [ls|]; simpl; auto.
+  assert (C : forall d, snd (construct h d ls cp f) <> Ok -> fst (construct h d ls cp f) = h).
+  { intros d. destruct (construct h d ls cp f) as [h1 [|x]] eqn:E; simpl; [congruence|].
+    intros _. eapply construct_err; eauto. }
+  destruct dt as [i|]; auto. destruct (nth_error (hnd h) i) as [l|]; simpl; auto.
+  destruct (val_of h l); simpl; auto.
+Qed.
+
+(* Emulsion(droplets, dtype=<layout of H[i0]>, force_consistency=True), also after Emulsion.empty(H[i0]):
+   a droplet of another layout anywhere in the list makes the constructor raise, nothing changes *)
+Theorem consistency_rejects_ctor h is i0 cp ls l0 v0 :
+  wf h -> mapM (nth_error (hnd h)) is = Some ls -> nth_error (hnd h) i0 = Some l0 -> val_of h l0 = Some v0 ->
+  Exists (fun l => exists v, val_of h l = Some v /\ dtype_eqb (dtype_of v0) (dtype_of v) = false) ls ->
+  exec h (OEmCtor is (Some i0) cp true) = (h, Err EValue).
+Proof.
+  intros W E E0 Hv0 X. simpl. unfold exec_emctor. rewrite E, E0, Hv0. unfold construct.
+  pose proof (locs_ok_mapM_hnd _ _ _ W E) as Hls.
+  pose proof (extend_rejects_mismatch (push_em h (mkE (Some (dtype_of v0)) [])) (length (ems h)) ls cp (dtype_of v0)
+                (wf_push_em_empty h _ W) Hls) as R.
+  destruct (extend_locs (push_em h (mkE (Some (dtype_of v0)) [])) (length (ems h)) ls cp true) as [h1 oc].
+  simpl in R. rewrite R; auto.
+  exists (mkE (Some (dtype_of v0)) []). split; auto. simpl. rewrite nth_error_app2 by lia.
+  rewrite Nat.sub_diag. reflexivity.
+Qed.
+
+(* without an explicit dtype the first droplet fixes the layout *)
+Theorem consistency_rejects_ctor_first h i1 is cp l1 v1 ls :
+  wf h -> nth_error (hnd h) i1 = Some l1 -> val_of h l1 = Some v1 -> mapM (nth_error (hnd h)) is = Some ls ->
+  Exists (fun l => exists v, val_of h l = Some v /\ dtype_eqb (dtype_of v1) (dtype_of v) = false) ls ->
+  exec h (OEmCtor (i1 :: is) None cp true) = (h, Err EValue).
+Proof.
+  intros W E1 Hv1 E X. simpl. unfold exec_emctor. simpl. rewrite E1, E. unfold construct. simpl.
+  set (hp := push_em h (mkE None [])).
+  assert (Wp : wf hp) by (apply wf_push_em_empty; auto).
+  pose proof (wf_hnd_lt _ _ _ W E1) as Hl1.
+  pose proof (locs_ok_mapM_hnd _ _ _ W E) as Hls.
+  destruct (wf_append_loc hp (length (ems h)) l1 cp true Wp Hl1) as (W1 & Hle & _).
+  pose proof (fun l' => append_loc_val hp (length (ems h)) l1 cp true l' Wp) as V.
+  assert (A : snd (append_loc hp (length (ems h)) l1 cp true) = Ok /\
+              exists e', nth_error (ems (fst (append_loc hp (length (ems h)) l1 cp true))) (length (ems h)) = Some e'
+                         /\ e_dtype e' = Some (dtype_of v1)).
+  { unfold append_loc. unfold hp at 1 3. simpl. rewrite nth_error_app2 by lia. rewrite Nat.sub_diag. simpl.
+    change (val_of hp l1) with (val_of h l1). rewrite Hv1. unfold em_add, rejects, new_dtype. simpl.
+    destruct cp; simpl; (split; [reflexivity|]); eexists;
+      (split; [apply nth_error_upd_eq; rewrite app_length; simpl; lia|reflexivity]). }
+  destruct A as (A1 & A2).
+  destruct (append_loc hp (length (ems h)) l1 cp true) as [h1 oc]; simpl in *. subst oc.
+  pose proof (extend_rejects_mismatch h1 (length (ems h)) ls cp (dtype_of v1) W1) as R.
+  destruct (extend_locs h1 (length (ems h)) ls cp true) as [h2 oc]. simpl in R. rewrite R; auto.
+  - eapply Forall_lt_mono with (f := fun x => x); [|exact Hls]. exact Hle.
+  - apply Exists_exists in X as (l0 & Hin & v0 & Hv0 & B0). apply Exists_exists. exists l0. split; auto.
+    exists v0. split; auto. rewrite V; auto. unfold locs_ok in Hls. rewrite Forall_forall in Hls. auto.
+Qed.
+
+(* clones (copy.copy, copy.deepcopy, pickle round trip) never fail on a well-formed heap and take the dtype over *)
+Theorem clone_keeps_dtype h c e :
+  wf h -> nth_error (ems h) c = Some e ->
+  snd (exec h (OEmClone c)) = Ok /\
+  exists e', nth_error (ems (fst (exec h (OEmClone c)))) (length (ems h)) = Some e' /\
+             (e_dtype e <> None -> e_dtype e' = e_dtype e) /\ length (e_mem e') = length (e_mem e).
+Proof.
+  intros W Ee. simpl. unfold exec_emclone. rewrite Ee. unfold construct.
+  pose proof (wf_em _ _ _ W Ee) as He.
+  assert (G : forall ls h0 (e0 : emul), wf h0 -> locs_ok h0 ls -> nth_error (ems h0) (length (ems h)) = Some e0 ->
+              snd (extend_locs h0 (length (ems h)) ls true false) = Ok /\
+              exists e', nth_error (ems (fst (extend_locs h0 (length (ems h)) ls true false))) (length (ems h)) = Some e' /\
+                         (e_dtype e0 <> None -> e_dtype e' = e_dtype e0) /\ length (e_mem e') = length (e_mem e0) + length ls).
+  { induction ls as [|l ls IH]; intros h0 e0 W0 H0 E0; simpl.
+    - split; auto. exists e0. repeat split; auto.
+    - inversion H0 as [|? ? Hl Hls]; subst.
+      destruct (val_of_ok h0 l W0 Hl) as [v Hv].
+      destruct (wf_append_loc h0 (length (ems h)) l true false W0 Hl) as (W1 & Hle & _).
+      assert (A : append_loc h0 (length (ems h)) l true false =
+                  (set_em (alloc h0 [v]) (length (ems h)) (mkE (new_dtype e0 v) (e_mem e0 ++ new_locs h0 1)), Ok)).
+      { unfold append_loc. rewrite E0, Hv. unfold em_add, rejects. destruct (e_dtype e0); reflexivity. }
+      rewrite A in *. simpl in W1, Hle |- *.
+      destruct (IH _ (mkE (new_dtype e0 v) (e_mem e0 ++ new_locs h0 1)) W1) as (I1 & e' & I2 & I3 & I4).
+      + eapply Forall_lt_mono with (f := fun x => x); [|exact Hls]. exact Hle.
+      + simpl. apply nth_error_upd_eq. eapply nth_error_Some_lt; eauto.
+      + split; auto. exists e'. split; auto. split.
+        * intros Hn. rewrite I3; simpl; unfold new_dtype; destruct (e_dtype e0); congruence.
+        * rewrite I4. simpl. rewrite app_length. simpl. lia. }
+  destruct (G (e_mem e) (push_em h (mkE (e_dtype e) [])) (mkE (e_dtype e) []) (wf_push_em_empty h _ W) He)
+    as (G1 & e' & G2 & G3 & G4).
+  { simpl. rewrite nth_error_app2 by lia. rewrite Nat.sub_diag. reflexivity. }
+  destruct (extend_locs (push_em h (mkE (e_dtype e) [])) (length (ems h)) (e_mem e) true false) as [h1 oc].
+  simpl in *. subst oc. split; auto. exists e'. repeat split; auto.
+Qed.
+
 (* ---- the operations that alias by design are not list-model operations ---- *)
 
 Definition vA : value := mkV 0 [0%Q; 0%Q] 1%Q [].
@@ -113,4 +264,39 @@ Lemma demo_facts :
   option_map (fun x => length (fst x)) (nth_error (s_tcs (abs h)) 1) = Some 3 /\
   option_map fst (nth_error (s_trs (abs h)) 1) = Some [(1#2)%Q] /\
   s_tvars (abs h) = [[(1#2)%Q; (9#1)%Q]].
+Proof. vm_compute. repeat split; reflexivity. Qed.
+
+(* ---- non-vacuity for the constructor, clones and general slices ---- *)
+Definition vP2 : value := mkV 2 [0%Q; 0%Q] 1%Q [(1#2)%Q; (1#8)%Q; (1#8)%Q].                       (* PerturbedDroplet2D, 2 modes *)
+Definition vP4 : value := mkV 2 [0%Q; 0%Q] 1%Q [(1#2)%Q; (1#8)%Q; (1#8)%Q; (1#8)%Q; (1#8)%Q].     (* ... 4 modes *)
+Definition demo_ops2 : list op :=
+  [ONew vP2; ONew vP4; ONew vA;
+   OEmCtor [0; 2] None true false;        (* E0 = Emulsion([P2, A]) *)
+   OEmCtor [] (Some 0) false false;       (* E1 = Emulsion.empty(P2) *)
+   OEmCtor [0; 0] (Some 0) true true;     (* E2: explicit dtype, consistent droplets *)
+   OEmClone 1;                            (* E3 = pickle round trip of the empty emulsion: dtype kept *)
+   OSel 0 [1; 0];                         (* E4 = E0[::-1] *)
+   OTcNew [0; 2] (Some [0%Q; (5#1)%Q]);   (* T0 = [E5, E6] *)
+   OTcSel 0 [1; 0];                       (* T1 = T0[::-1] = [E7, E8], times [5, 0] *)
+   OTcClone 1;                            (* T2 = deepcopy(T1) = [E9, E10] *)
+   OTrNew [0; 1] None; OTrSel 0 [1]].
+
+Lemma demo_ops2_default : Forall (fun o => list_op o = true) (OEmClone 1 :: OSel 0 [1; 0] :: OTcSel 0 [1; 0] :: [OTcClone 1]).
+Proof. repeat constructor. Qed.
+
+Lemma demo_facts2 :
+  let h := run emp demo_ops2 in
+  length (ems h) = 11 /\ length (tcs h) = 3 /\ length (trs h) = 2 /\
+  abs_em h 4 = Some [vA; vP2] /\
+  option_map fst (nth_error (s_ems (abs h)) 3) = Some (Some (2, 2, 3)) /\
+  abs_em h 3 = Some [] /\
+  nth_error (s_tcs (abs h)) 1 = Some ([(5#1)%Q; 0%Q], [7; 8]) /\
+  nth_error (s_tcs (abs h)) 2 = Some ([(5#1)%Q; 0%Q], [9; 10]) /\
+  abs_em h 9 = Some [vP2; vP2] /\ abs_em h 10 = Some [vP2; vA] /\
+  nth_error (s_trs (abs h)) 1 = Some ([1%Q], [vP4]) /\
+  (* 2 modes then 4 modes with force_consistency: constructor, append after Emulsion.empty, extend *)
+  exec h (OEmCtor [0; 1] None true true) = (h, Err EValue) /\
+  exec h (OEmCtor [1] (Some 0) false true) = (h, Err EValue) /\
+  exec h (OAppend 1 1 true true) = (h, Err EValue) /\
+  snd (exec h (OExtend 2 [0; 1; 0] true true)) = Err EValue.
 Proof. vm_compute. repeat split; reflexivity. Qed.
